@@ -222,7 +222,7 @@ def main(a):
         return v.finish()
 
     # ---- A: the modelled fragment
-    progs = [sched.gen_program(r) for _ in range(250 if quick else 15000)]
+    progs = [sched.gen_program(r) for _ in range(250 if quick else 50000)]
     _, mo, _ = common.run_lines_parallel([drv, "sched"], [sched.model_line(f, m) for f, m in progs])
     srcs = [sched.render(f, m) for f, m in progs]
     outs = common.run_programs(exe, srcs, timeout=10)
@@ -244,7 +244,7 @@ def main(a):
                    {"program": src, "expected_stdout": "".join(x + "\n" for x in out), "impl_stdout": o[0], "impl_exit_class": o[1]})
     # ---- B: structured bodies, yield at every kind of position
     cases = []
-    per = 8 if quick else 400
+    per = 8 if quick else 1500
     for feat in FEATURES:
         for _ in range(per):
             cases.append((feat,) + gen_case(r, feat))
